@@ -180,14 +180,22 @@ PROPS = {
     ),
     'C10': dict(
         standins=['sum_of_products'],
-        units_quick=['kani:window', 'scalar', 'precomp'], units_thorough=['kani:window', 'scalar', 'precomp'], timeout=3000,
-        technique="Kani/CBMC full-domain harness for the window heuristic; Verus composition contract for the entry point",
-        claim="PARTIAL: find_pippinger_window (G1 and G2) returns, for every usize number of components, a window in 1..=16 equal to the documented table and "
-              "monotone in its argument (CBMC, full domain); sum_of_products = sum_of_products_pippinger(points, scalars, find_pippinger_window(min(#points, "
-              "#scalars))) (real body, Verus). precomp_256 (the table the table-driven variant uses) builds the subset-sum table exactly (unit precomp). "
-              "The bucket method itself (digit extraction, bucket accumulation, running sums), sum_of_products_precomp_256 and the panic precondition are NOT decided.",
-        not_covered=["sum_of_products_pippinger (six nested loops): not decided", "sum_of_products_precomp_256: not decided"],
-        assumptions=["Kani 0.68 / CBMC 6.11", A['TOOLS']],
+        units_quick=['kani:window', 'msm', 'precomp'], units_thorough=['kani:window', 'msm', 'precomp', 'scalar', 'curve'], timeout=3000,
+        technique="contract-based deductive verification: Verus contracts and loop invariants on the real bodies of the three multi-scalar entry points (G1 and G2); "
+                  "Kani/CBMC full-domain harness for the window heuristic",
+        claim="for every list of affine points and every list of four-limb scalars below 2^255 (real bodies, G1 and G2, any lengths, n = min(#points, #scalars)): "
+              "sum_of_products_pippinger with every window 1..=20 returns sum_{i<n} [k_i]P_i - loop invariant `res == sum [k_i >> (bit_sequence_index+1)] P_i, all buckets are the identity`; "
+              "per window the digit extraction in its three forms (inside a word / straddling two words / short last window) is proved equal to (k >> lo) mod 2^width from the limb value "
+              "(bit-vector lemmas linked to integer division), bucket accumulation adds digit_i * P_i to the weighted bucket sum, and the running-sum reduction returns sum b * bucket_b and leaves "
+              "every bucket the identity; no index out of bounds, no overflow, the assert! on the top bit never fires, termination; "
+              "sum_of_products (default entry) = the bucket method with the window of find_pippinger_window, which is in 1..=16, equal to the documented table and monotone for every usize n (CBMC, full domain); "
+              "sum_of_products_precomp_256 returns the same sum for every table satisfying the table predicate, which precomp_256 establishes (unit precomp). "
+              "Sums are in the abstract group (A3): duplicates, inverse points and identities need no special case at this level; the point formulas that meet them are C01.",
+        not_covered=["find_pippinger_window_via_estimate (the floating-point cost estimate the table was derived from)",
+                     "scalars with bit 255 set: the bucket method panics by its documented assert (outside the property's domain)"],
+        assumptions=[A['A3'], "group-level contracts of double / add_assign / add_assign_mixed are the statements of unit curve lifted through A3",
+                     "std::vec::from_elem via vstd's specification; usize is 64 bits (global size_of usize == 8)",
+                     "rewrites R3 (for i in (a..b).rev()), R9 (panic -> unreachable obligation), R12v (path of vec::from_elem)", "Kani 0.68 / CBMC 6.11", A['TOOLS']],
     ),
     'C13': dict(
         standins=['expand_message_hash_to_field'],
